@@ -34,6 +34,10 @@ class ContinueSig(Exception):
     pass
 
 
+class _InfeasibleBranch(Exception):
+    pass
+
+
 class VFunc(V):
     def __init__(self, node, module, cls=None, closure=None, self_val=None, qualname=None, kind="func"):
         self.node, self.module, self.cls, self.closure, self.self_val = node, module, cls, closure, self_val
@@ -454,33 +458,52 @@ class Interp:
         if t.c is not None:
             return self.ev(node.body if t.c else node.orelse, fr)
         if self.pure_expr(node.body) and self.pure_expr(node.orelse):
-            ft, ff = self.path.feasible(t.t), self.path.feasible(z3.Not(t.t))
-            if ft and not ff:
-                return self.ev(node.body, fr)
-            if ff and not ft:
-                return self.ev(node.orelse, fr)
-            if not ft and not ff:
+            nt = z3.Not(t.t)
+            a = b = None
+            try:
+                a = self._under(t.t, node.body, fr, narrow=False)
+            except PyRaise as e:
+                if self.path.feasible(t.t):
+                    raise
+                # (the assumption stays, the path is infeasible) -- cannot happen: feasible() was false
                 raise PathEnd("infeasible")
-            a = self._under(t.t, node.body, fr)
-            b = self._under(z3.Not(t.t), node.orelse, fr)
-            return ops.union_of([(t.t, a), (z3.Not(t.t), b)])
+            except _InfeasibleBranch:
+                a = None
+            try:
+                b = self._under(nt, node.orelse, fr, narrow=False)
+            except _InfeasibleBranch:
+                b = None
+            if a is None and b is None:
+                raise PathEnd("infeasible")
+            if a is None:
+                return b
+            if b is None:
+                return a
+            return ops.union_of([(t.t, a), (nt, b)])
         if self.path.branch(t.t, "ifexp"):
             return self.ev(node.body, fr)
         return self.ev(node.orelse, fr)
 
-    def _under(self, c, node, fr):
+    def _under(self, c, node, fr, narrow=True):
         """evaluate node with c temporarily assumed; an exception keeps the assumption"""
         self.path.solver.push()
         saved = len(self.path.pc)
-        self.path.assume(c)
         try:
-            v = self.narrow(self.ev(node, fr))
+            self.path.assume(c)
+        except PathEnd:
+            self.path.solver.pop()
+            del self.path.pc[saved:]
+            raise _InfeasibleBranch()
+        try:
+            v = self.ev(node, fr)
+            if narrow:
+                v = self.narrow(v)
         except PyRaise:
-            # exception escapes: the assumption stays part of the path condition.
-            # re-assert at base level
             extra = self.path.pc[saved:]
             self.path.solver.pop()
             del self.path.pc[saved:]
+            if not self.path.feasible(z3.And(extra) if extra else True):
+                raise _InfeasibleBranch()
             for x in extra:
                 self.path.assume(x)
             raise
@@ -748,6 +771,10 @@ class Interp:
     def call_func_now(self, fv, args, kwargs):
         node = fv.node
         if self.contracts is not None and fv.qualname and not isinstance(node, ast.Lambda):
+            if fv.qualname in self.contracts.opaque:
+                r = self.contracts.opaque_call(self, fv, list(args) if fv.self_val is None else [fv.self_val] + list(args))
+                if r is not None:
+                    return r
             c = self.contracts.for_call(fv.qualname, self)
             if c is not None:
                 loc = self.bind_params(fv, args, kwargs)
